@@ -391,6 +391,7 @@ fn create_pkg_length(len: usize, include_self: bool) -> Vec<u8> {
     };
 
     let length = len + if include_self { length_length } else { 0 };
+    assert!(length as u64 <= 0x0fff_ffff, "PkgLength cannot encode 2^28 or more");
 
     match length_length {
         1 => result.push(length as u8),
